@@ -35,6 +35,7 @@ type svMap struct {
 	vals map[string]SV
 	ti   uint64
 	vid  atree.ValueID
+	top  bool // created as a top-level map (with Opts.RootDigester); nested and detached maps use Opts.Digester
 }
 
 func keyStr(k atree.Value) string { return fmt.Sprintf("%T:%v", k, k) }
@@ -50,7 +51,10 @@ type WorldOpts struct {
 	LargeVals bool                         // strings above the inline limit (StorableSlab)
 	PopChild  bool                         // PopIterate / SetType through child handles
 	Digester  func() atree.DigesterBuilder // one builder per map: the builder carries the map's seed
-	KeySpace  int
+	// RootDigester is used for top-level maps only (nested maps are re-created by the library with its
+	// default builder, so a custom digester is only consistent at the root); defaults to Digester
+	RootDigester func() atree.DigesterBuilder
+	KeySpace     int
 }
 
 type World struct {
@@ -73,6 +77,9 @@ func NewWorld(base *LogBase, rng *Rng, opts WorldOpts, rep *Report) *World {
 	if opts.Digester == nil {
 		opts.Digester = func() atree.DigesterBuilder { return atree.NewDefaultDigesterBuilder() }
 	}
+	if opts.RootDigester == nil {
+		opts.RootDigester = opts.Digester
+	}
 	w := &World{St: newStorage(base), Base: base, Rng: rng, Opts: opts, Addr: mkAddr(opts.Addr), Rep: rep}
 	w.Fail = func(what, detail string) { panic(what + ": " + detail) }
 	return w
@@ -91,9 +98,9 @@ func (w *World) NewArrayRoot() *svArr {
 
 func (w *World) NewMapRoot() *svMap {
 	ti := uint64(50 + w.Rng.Intn(3))
-	m, err := atree.NewMap(w.St, w.Addr, w.Opts.Digester(), w.ti(ti))
+	m, err := atree.NewMap(w.St, w.Addr, w.Opts.RootDigester(), w.ti(ti))
 	must(err)
-	s := &svMap{m: m, vals: map[string]SV{}, ti: ti, vid: m.ValueID()}
+	s := &svMap{m: m, vals: map[string]SV{}, ti: ti, vid: m.ValueID(), top: true}
 	w.Roots = append(w.Roots, s)
 	return s
 }
@@ -660,7 +667,11 @@ func (w *World) Reopen() {
 			}
 			w.rehandle(x, a)
 		case *svMap:
-			m, err := atree.NewMapWithRootID(w.St, x.m.SlabID(), w.Opts.Digester())
+			dig := w.Opts.Digester
+			if x.top {
+				dig = w.Opts.RootDigester
+			}
+			m, err := atree.NewMapWithRootID(w.St, x.m.SlabID(), dig())
 			if err != nil {
 				w.Fail("C03: map cannot be reopened by its root identifier", err.Error())
 				continue
@@ -752,3 +763,55 @@ func (w *World) LiveIDs() []atree.SlabID {
 	sort.Slice(out, func(i, j int) bool { return out[i].Compare(out[j]) < 0 })
 	return out
 }
+
+// ---------- real digests with forced first-level collisions ----------
+
+// collideL0Builder wraps the library's default DigesterBuilder: every key is hashed by the REAL
+// pooled digester (CircleHash64 + lazily cached BLAKE3 for levels 1..3), the digester is returned to
+// the library's pool right away, and only the first-level digest is folded into a small alphabet so
+// that collision groups (and therefore the deeper, BLAKE3-based levels) are actually used.
+type collideL0Builder struct {
+	inner atree.DigesterBuilder
+	mod   uint64
+}
+
+func newCollideL0Builder(mod uint64) atree.DigesterBuilder {
+	return &collideL0Builder{inner: atree.NewDefaultDigesterBuilder(), mod: mod}
+}
+func (b *collideL0Builder) SetSeed(k0, k1 uint64) { b.inner.SetSeed(k0, k1) }
+func (b *collideL0Builder) Digest(hip atree.HashInputProvider, v atree.Value) (atree.Digester, error) {
+	d, err := b.inner.Digest(hip, v)
+	if err != nil {
+		return nil, err
+	}
+	out := &fixedDigester{}
+	for l := uint(0); l < d.Levels(); l++ {
+		x, err := d.Digest(l)
+		if err != nil {
+			return nil, err
+		}
+		if l == 0 {
+			x = atree.Digest(uint64(x) % b.mod)
+		}
+		out.ds = append(out.ds, x)
+	}
+	atree.VerifPutDigester(d)
+	return out, nil
+}
+
+type fixedDigester struct{ ds []atree.Digest }
+
+func (f *fixedDigester) DigestPrefix(level uint) ([]atree.Digest, error) {
+	if level > uint(len(f.ds)) {
+		return nil, fmt.Errorf("level %d out of range", level)
+	}
+	return f.ds[:level], nil
+}
+func (f *fixedDigester) Digest(level uint) (atree.Digest, error) {
+	if level >= uint(len(f.ds)) {
+		return 0, fmt.Errorf("level %d out of range", level)
+	}
+	return f.ds[level], nil
+}
+func (f *fixedDigester) Reset()       {}
+func (f *fixedDigester) Levels() uint { return uint(len(f.ds)) }
